@@ -35,9 +35,19 @@ def exception_class(name):
     return getattr(builtins, name)
 
 
+def resolve(target):
+    """(module name, attribute): a named target of TARGETS, or any "module:attribute" (harness/c06.py enumerates every function
+    of the analysis modules by reflection)."""
+    if ":" in target:
+        mod_name, attr = target.split(":", 1)
+        return mod_name, attr
+    return TARGETS[target]
+
+
 def install(target, exc_name):
-    """Replace the target by a function raising exc_name; returns an undo function."""
-    mod_name, attr = TARGETS[target]
+    """Replace the target by a function raising exc_name; returns an undo function.  For a "module:attribute" target every
+    module of the package that holds the same function object under any name (`from x import f`) is patched too."""
+    mod_name, attr = resolve(target)
     mod = importlib.import_module(mod_name)
     cls = exception_class(exc_name)
     old = getattr(mod, attr)
@@ -47,8 +57,21 @@ def install(target, exc_name):
             raise UnicodeEncodeError("utf-8", "\ud800", 0, 1, "injected")
         raise cls("injected fault")
 
-    setattr(mod, attr, boom)
-    return lambda: setattr(mod, attr, old)
+    patched = [(mod, attr)]
+    if ":" in target:
+        for name, m in list(sys.modules.items()):
+            if m is None or not name.startswith("dippy"):
+                continue
+            for a, v in list(vars(m).items()):
+                if v is old and (m, a) not in patched:
+                    patched.append((m, a))
+    for m, a in patched:
+        setattr(m, a, boom)
+
+    def undo():
+        for m, a in patched:
+            setattr(m, a, old)
+    return undo
 
 
 if __name__ == "__main__":
@@ -58,5 +81,7 @@ if __name__ == "__main__":
     import dippy.dippy as D
 
     assert D.__file__.startswith(repo), D.__file__
+    if ":" in target:
+        importlib.import_module(target.split(":", 1)[0])
     install(target, exc_name)
     D.main()
